@@ -30,10 +30,16 @@ def setup():
     setup09()
 
 
+MATERN = dict(scale=(1.1, 0.4), cutoff=(0.9, 0.3), loglogslope=(-3., 0.5))
+
+
 def _cl_model(spaces, flex, asp):
     cfm = ift.CorrelatedFieldMaker("")
     cfm.set_amplitude_total_offset(*OFFSET)
     for i, (shape, dist) in enumerate(spaces):
+        if flex == "matern":
+            cfm.add_fluctuations_matern(ift.RGSpace(tuple(shape), distances=tuple(dist)), **MATERN, prefix=f"s{i}" if len(spaces) > 1 else "")
+            continue
         cfm.add_fluctuations(ift.RGSpace(tuple(shape), distances=tuple(dist)), **HYPER, flexibility=FLEX if flex else None,
                              asperity=ASP if asp else None, prefix=f"s{i}" if len(spaces) > 1 else "")
     return cfm, cfm.finalize()
@@ -45,6 +51,10 @@ def _re_model(spaces, flex, asp):
     jcfm = J.CorrelatedFieldMaker("")
     jcfm.set_amplitude_total_offset(offset_mean=OFFSET[0], offset_std=OFFSET[1])
     for i, (shape, dist) in enumerate(spaces):
+        if flex == "matern":
+            jcfm.add_fluctuations_matern(tuple(shape), distances=tuple(dist), **MATERN, non_parametric_kind="amplitude", renormalize_amplitude=False,
+                                         prefix=f"s{i}" if len(spaces) > 1 else "")
+            continue
         jcfm.add_fluctuations(tuple(shape), distances=tuple(dist), **HYPER, flexibility=FLEX if flex else None,
                               asperity=ASP if asp else None, non_parametric_kind="power", prefix=f"s{i}" if len(spaces) > 1 else "")
     return jcfm, jcfm.finalize()
@@ -77,7 +87,12 @@ def h_agree(B, spaces, flex, asp, convention="non_canonical_hartley"):
         cfm, cf = _cl_model(spaces, flex, asp)
         jcfm, jcf = _re_model(spaces, flex, asp)
         jdom = jcf.domain
-        B.is_true("both models have the same latent parameters", sorted(jdom.keys()) == sorted(cf.domain.keys()))
+        same = sorted(jdom.keys()) == sorted(cf.domain.keys())
+        B.is_true("both models have the same latent parameters", same)
+        same = same and all(tuple(jdom[k].shape) == (tuple(cf.domain[k].shape)[::-1] if k.endswith("spectrum") else tuple(cf.domain[k].shape)) for k in jdom)
+        B.is_true("the latent parameters of both models have the same shapes (same number of spectral bins)", same)
+        if not same:
+            return
         lat = {k: B.reals(k, v.shape) for k, v in jdom.items() if k != "xi"}
         if B.mode == "sym":
             sc.cur().uf_tol = 1e-9
@@ -139,30 +154,36 @@ def h_variance(B, spaces, flex, asp):
 def scenarios(tier, seed):
     def one(shape, dist):
         return [(tuple(shape), tuple(dist))]
+    if tier == "probe":
+        return [("agree", {"spaces": one((4,), (0.5,)), "flex": "matern", "asp": False}),
+                ("variance", {"spaces": one((4,), (0.5,)), "flex": "matern", "asp": False})]
     quick = [("agree", {"spaces": one((4,), (0.5,)), "flex": False, "asp": False}),
              ("agree", {"spaces": one((4,), (0.5,)), "flex": True, "asp": True}),
              ("agree", {"spaces": one((4,), (3.,)), "flex": True, "asp": True, "convention": "canonical_hartley"}),
-             ("agree", {"spaces": one((2, 4), (0.5, 0.25)), "flex": True, "asp": True}),
+             ("agree", {"spaces": one((2, 4), (0.5, 0.3)), "flex": True, "asp": True}),
              ("variance", {"spaces": one((4,), (0.5,)), "flex": False, "asp": False}),
              ("variance", {"spaces": one((4,), (0.5,)), "flex": True, "asp": True}),
              ("variance", {"spaces": one((6,), (0.1,)), "flex": True, "asp": True}),
              ("variance", {"spaces": one((8,), (2.,)), "flex": True, "asp": False}),
-             ("variance", {"spaces": one((2, 4), (0.5, 0.25)), "flex": True, "asp": True}),
+             ("variance", {"spaces": one((2, 4), (0.5, 0.3)), "flex": True, "asp": True}),
              ("variance", {"spaces": one((3, 3), (1., 1.)), "flex": True, "asp": True}),
              ("variance", {"spaces": one((4, 4), (1., 2.)), "flex": True, "asp": True}),
-             ("variance", {"spaces": [((4,), (0.5,)), ((4,), (2.,))], "flex": True, "asp": False})]
+             ("variance", {"spaces": [((4,), (0.5,)), ((4,), (2.,))], "flex": True, "asp": False}),
+             ("variance", {"spaces": [((4,), (0.5,)), ((4,), (2.,)), ((4,), (1.,))], "flex": False, "asp": False}),
+             ("variance", {"spaces": one((4,), (0.5,)), "flex": "matern", "asp": False})]       # known finding
     thorough = [("agree", {"spaces": one((6,), (1.,)), "flex": True, "asp": True}),
                 ("agree", {"spaces": one((3, 3), (0.1, 0.1)), "flex": True, "asp": True}),
                 ("agree", {"spaces": one((4, 4), (1., 2.)), "flex": True, "asp": False}),
                 ("agree", {"spaces": [((4,), (0.5,)), ((4,), (2.,))], "flex": True, "asp": False}),
                 ("variance", {"spaces": [((4,), (0.5,)), ((2, 4), (1., 3.))], "flex": True, "asp": True}),
                 ("variance", {"spaces": [((6,), (0.5,)), ((4,), (2.,))], "flex": True, "asp": True}),
-                ("variance", {"spaces": one((4, 6), (1., 0.5)), "flex": True, "asp": True})]
+                ("variance", {"spaces": one((4, 6), (1., 0.5)), "flex": True, "asp": True}),
+                ("variance", {"spaces": one((8,), (1.,)), "flex": "matern", "asp": False})]       # known finding
     return quick if tier == "quick" else quick + thorough
 
 
 HARNESSES = {"agree": h_agree, "variance": h_variance}
-OPTS = {"quick": {"max_paths": 20, "budget_s": 900, "jobs": 12, "branch_timeout_ms": 20000, "obl_timeout_ms": 120000},
+OPTS = {"probe": {"max_paths": 20, "budget_s": 900, "jobs": 12, "branch_timeout_ms": 20000, "obl_timeout_ms": 120000}, "quick": {"max_paths": 20, "budget_s": 900, "jobs": 12, "branch_timeout_ms": 20000, "obl_timeout_ms": 120000},
         "thorough": {"max_paths": 20, "budget_s": 2400, "jobs": 12, "branch_timeout_ms": 20000, "obl_timeout_ms": 300000}}
 
 META = {
@@ -180,12 +201,13 @@ META = {
                           "PowerDistributor, HarmonicTransformOperator, ContractionOperator", "nifty.re.correlated_field.{CorrelatedFieldMaker."
                           "add_fluctuations,set_amplitude_total_offset,finalize,NonParametricAmplitude.__call__,hartley,get_fourier_mode_distributor,"
                           "_remove_slope}"],
-    "bounds": {"grids": "1-D 4, 6, 8 pixels; 2-D 2x4, 3x3, 4x4 (4x6 thorough); products of two spaces (4 x 4 quick; 4 x 2x4, 6 x 4 thorough); concrete distances 0.1 .. 3",
-               "amplitude": "non-parametric, power parametrisation, with / without flexibility and asperity", "prior means / widths of the hyperparameters": "one concrete set (the latents are symbolic, so every hyperparameter VALUE is covered)"},
+    "bounds": {"grids": "1-D 4, 6, 8 pixels; 2-D 2x4, 3x3, 4x4 (4x6 thorough); products of two spaces (4 x 4 quick; 4 x 2x4, 6 x 4 thorough) and of three spaces (4 x 4 x 4, variance clause); concrete distances 0.1 .. 3",
+               "amplitude": "non-parametric, power parametrisation, with / without flexibility and asperity; classic Matern amplitude for the variance clause", "prior means / widths of the hyperparameters": "one concrete set (the latents are symbolic, so every hyperparameter VALUE is covered)"},
     "stubs": ["ducc0 Hartley / FFT kernels = explicit DFT sums with exact twiddle factors (validated against the real kernels in every run, C09)",
               "exp: uninterpreted, > 0, monotone, exp(0) = 1, exp(x) >= 1 + x; applications whose arguments agree in every coefficient up to 1e-9 are identified "
               "(differently rounded float constants of the two code bases)"],
-    "outside": ["Matern amplitudes and the amplitude parametrisation (log / power of symbolic arguments nested in exp)", "spherical (HEALPix) spaces", "total_N > 0 (dofdex)",
+    "outside": ["agreement of the two implementations for Matern amplitudes and for the amplitude parametrisation (log / power of symbolic arguments nested in exp: "
+                "the solver's models do not reproduce, the encoding is too weak); the variance clause IS checked for the classic Matern amplitude (known finding)", "spherical (HEALPix) spaces", "total_N > 0 (dofdex)",
                 "correlated_fields_simple", "symbolic distances / prior parameters", "grids whose twiddle factors are not in Q(sqrt2, sqrt3) (5, 7 pixels)"],
     "assumptions": [],
 }
